@@ -528,7 +528,9 @@ class MultiVector:
         elif isinstance(data, dict):
             pass
         else:
-            data = {0: data}
+            from pymbolic.primitives import is_zero
+            # a zero scalar is the zero multivector: no explicit zero coefficient
+            data = {} if is_zero(data) else {0: data}
 
         if space is None:
             space = get_euclidean_space(dimensions)
